@@ -36,7 +36,7 @@ func sweepC08(tier string) []Stratum {
 	return out
 }
 
-var c08Faults = []FaultKind{FStall, FEOF, FIOErr, FOversize, FWriteErr, FShortWrite, FCancelBefore, FCancelAfterWrite, FCancelAt, FCtxDeadline, FNotConnected, FNilRequest, FFlushFail, FDialFail}
+var c08Faults = []FaultKind{FStall, FEOF, FIOErr, FOversize, FWriteErr, FShortWrite, FCancelBefore, FCancelAfterWrite, FCancelAt, FCtxDeadline, FNotConnected, FNilRequest, FFlushFail, FDialFail, FWriteDeadlineErr}
 
 // strata: (fault kind index, client kind, fc index): the first three draws of genC08.
 func strataC08(tier string) [][]int32 {
@@ -65,6 +65,9 @@ func genC08(rc *RunCtx) (*C1, bool) {
 		} else {
 			sc.TypedNilDial = t.Choose(2) == 1
 		}
+	}
+	if fault == FWriteDeadlineErr && sc.Kind == KSerial {
+		sc.Fault = FWriteErr // serial ports have no deadlines
 	}
 	if fault == FFlushFail {
 		if sc.Kind != KSerial {
@@ -374,6 +377,14 @@ func checkC08(rc *RunCtx, sc *C1, out *C1Outcome) {
 		fired = len(out.Consumed) > limit
 		if fired && !isClientErr {
 			rc.Violate("misclassified", base+"|err="+errType, "client consumed %d bytes (more than any frame) but Do returned %T %q", len(out.Consumed), out.Err, out.Err)
+		}
+	case FWriteDeadlineErr:
+		fired = out.WDeadlineRejected > 0
+		if fired && (!isClientErr || !errors.Is(out.Err, ErrSimIO)) {
+			rc.Violate("misclassified", base+"|err="+errType, "the connection refused the write deadline (it is gone) but Do returned %T %q, not the client error wrapping the cause", out.Err, out.Err)
+		}
+		if reads > 0 {
+			rc.Violate("read_after_failed_write", base, "client read from the transport although the request could not be written")
 		}
 	case FWriteErr, FShortWrite:
 		fired = writes > 0
